@@ -18,3 +18,90 @@ def _(c):
 def _(c):
     c.ensures("0 < value <= %d" % DOC_MAX_SUPPLY)
     c.raises_only_if("not (0 < value <= %d)" % DOC_MAX_SUPPLY)
+
+
+MAXS = DOC_MAX_SUPPLY
+
+# ---------------------------------------------------------------------------------------------------- fees (C02)
+
+@CS.contract("skepticoin.consensus.get_transaction_fee", props=["C02", "C12"])
+def _(c):
+    c.params(unspent_transactions=MAP(CLS('OutputReference'), CLS('Output')))
+    c.summary("tx_fee")
+    c.ensures("result == sum(unspent_transactions[i.output_reference].value for i in transaction.inputs)"
+              " - sum(o.value for o in transaction.outputs)",
+              "all(i.output_reference in unspent_transactions for i in transaction.inputs)")
+    c.raises_only_if("not all(i.output_reference in unspent_transactions for i in transaction.inputs)")
+    c.raises(KeyError)
+
+
+@CS.contract("skepticoin.consensus.get_block_fees", props=["C02", "C12"])
+def _(c):
+    c.params(unspent_transaction_outs=MAP(CLS('OutputReference'), CLS('Output')))
+    c.summary("block_fees")
+    c.ensures("result == sum(get_transaction_fee(t, unspent_transaction_outs) for t in non_coinbase_transactions)",
+              "all(all(i.output_reference in unspent_transaction_outs for i in t.inputs) for t in non_coinbase_transactions)")
+    c.raises_only_if("not all(all(i.output_reference in unspent_transaction_outs for i in t.inputs) for t in non_coinbase_transactions)")
+    c.raises(KeyError)
+
+
+# ---------------------------------------------------------------------------------------------------- transactions
+
+BY_ITSELF = [
+    "len(transaction.inputs) > 0",
+    "len(transaction.outputs) > 0",
+    "len(transaction.serialize()) <= MAX_BLOCK_SIZE",
+    "all(0 < o.value <= %d for o in transaction.outputs)" % MAXS,
+    "0 < sum(o.value for o in transaction.outputs) <= %d" % MAXS,
+    # no output is spent twice inside the transaction
+    "all(all(transaction.inputs[a].output_reference != transaction.inputs[b].output_reference"
+    " for b in range(a)) for a in range(len(transaction.inputs)))",
+    # every input refers to a real output and carries a real signature object
+    "all(not (i.output_reference.hash == ZERO32 and i.output_reference.index == 0) for i in transaction.inputs)",
+    "all(isinstance(i.signature, SECP256k1Signature) for i in transaction.inputs)",
+]
+
+
+@CS.contract("skepticoin.consensus.validate_non_coinbase_transaction_by_itself", props=["C01", "C02", "C13"])
+def _(c):
+    c.local(output_references=SET(CLS('OutputReference')))
+    c.predicate("tx_by_itself", ["transaction"])
+    c.ensures(*BY_ITSELF)
+    # one-sided on purpose: "rejects only if" would need an exact characterisation of the seen-set (an exists-invariant);
+    # the properties only say "accepted only if", and callers use the predicate tx_by_itself for the other direction
+    c.loop(0).invariant(
+        "total_transaction_output_value == sum(o.value for o in transaction.outputs[:i])",
+        "all(0 < o.value <= %d for o in transaction.outputs[:i])" % MAXS)
+    c.loop(1).invariant(
+        "all(transaction.inputs[j].output_reference in output_references for j in range(i))",
+        "all(all(transaction.inputs[a].output_reference != transaction.inputs[b].output_reference"
+        " for b in range(a)) for a in range(i))")
+    c.loop(2).invariant(
+        "all(not (inp.output_reference.hash == ZERO32 and inp.output_reference.index == 0) for inp in transaction.inputs[:i])",
+        "all(isinstance(inp.signature, SECP256k1Signature) for inp in transaction.inputs[:i])")
+
+
+@CS.contract("skepticoin.consensus.validate_signature_for_spend", props=["C01"])
+def _(c):
+    c.ensures("G.spend_verifies(input, previous_output, transaction)")
+    c.raises_only_if("not G.spend_verifies(input, previous_output, transaction)")
+
+
+IN_STATE = [
+    "all(i.output_reference in U for i in transaction.inputs)",
+    "all(G.spend_verifies(i, U[i.output_reference], transaction) for i in transaction.inputs)",
+    "sum(o.value for o in transaction.outputs) <= sum(U[i.output_reference].value for i in transaction.inputs)",
+]
+
+
+@CS.contract("skepticoin.consensus.validate_non_coinbase_transaction_in_coinstate", props=["C01", "C02", "C13"])
+def _(c):
+    c.let(U="coinstate.unspent_transaction_outs_by_hash[at_hash]")
+    c.predicate("tx_in_state", ["transaction", "at_hash", "coinstate"])
+    c.ensures("at_hash in coinstate.unspent_transaction_outs_by_hash", *IN_STATE)
+    c.raises_only_if("not (at_hash in coinstate.unspent_transaction_outs_by_hash and "
+                     + " and ".join("(%s)" % x for x in IN_STATE) + ")")
+    c.loop(0).invariant(
+        "total_input_value == sum(U[inp.output_reference].value for inp in transaction.inputs[:i])",
+        "all(inp.output_reference in U for inp in transaction.inputs[:i])",
+        "all(G.spend_verifies(inp, U[inp.output_reference], transaction) for inp in transaction.inputs[:i])")
